@@ -32,6 +32,7 @@ where
         let bounding_box = self.bounding_box();
         let pixels = item_pixels
             .into_iter()
+            .fuse()
             .filter(move |Pixel(point, _)| bounding_box.contains(*point));
         //  Batch the pixels into Pixel Rows.
         let rows = to_rows(pixels);
